@@ -23,6 +23,7 @@ now replays the changes in the order computed by `orderChanges`, which the model
 -/
 import Verif.Lemmas.MptStoreEvents
 import Verif.Lemmas.MptStoreTrie
+import Verif.Gen.AppendFacts
 namespace Verif.Props.C03
 open Verif.Mpt Verif.MptStore
 
@@ -45,6 +46,12 @@ theorem trie_delete_tree (H : Bytes → Bytes) (t : Trie) (p : List Nib) :
     simp only at h
     rw [← h]
     cases r <;> simp
+
+/-- **No append onto a node's slice**: in the regenerated table of every `append(` of merkle_patricia_trie.go and
+    mpt_node.go (go/extract) no site grows a slice that is a field of a node or an alias of one, and every site is
+    classified.  This is the syntactic side of FRAME: the defect fixed by 736e702 (`append(nodeImpl.Path, …)` writing
+    into a buffer shared with a node pending in the parent's collector) makes this obligation fail. -/
+theorem no_node_field_append : Verif.Gen.AppendFacts.noNodeFieldAppend = true := by decide
 
 /-- the events a merge replays on the parent -/
 def mergeEvents (changes : List (Change Ref)) (deletes : List Ref) : List Event :=
